@@ -317,6 +317,7 @@ func (gs *groupState) pollLoop(m *gmember, script []plan.Op, pattern []plan.Op) 
 			cc.done = true
 			cc.doneSeq = s.Seq()
 			gs.mu.Unlock()
+			s.Logf("COMMIT-DONE %s #%d %s err=%v", m.name, cc.idx, cc.kind, err)
 		}
 		// the context of an asynchronous commit must outlive the call: it is
 		// released in the completion callback (or by its own, planned
@@ -336,12 +337,33 @@ func (gs *groupState) pollLoop(m *gmember, script []plan.Op, pattern []plan.Op) 
 		} else {
 			defer cancel()
 		}
+		// what CommitRecords and CommitUncommittedOffsets put into their
+		// request is the client's decision (a partition whose dirty offset
+		// equals its committed offset at the time of the call is left out):
+		// the call's offsets are read off the request it is about to issue
+		capture := func(ctx context.Context) context.Context {
+			return kgo.PreCommitFnContext(ctx, func(req *kmsg.OffsetCommitRequest) error {
+				gs.mu.Lock()
+				for _, t := range req.Topics {
+					for _, p := range t.Partitions {
+						cc.offsets[tpKey{t.Topic, p.Partition}] = p.Offset
+					}
+				}
+				gs.mu.Unlock()
+				return nil
+			})
+		}
 		switch op.Kind {
 		case "commit_async", "commit_sync":
 			unc := map[string]map[int32]kgo.EpochOffset{}
 			for k, o := range pos {
 				if unc[k.t] == nil {
 					unc[k.t] = map[int32]kgo.EpochOffset{}
+				}
+				// op.A: the application deliberately commits an earlier
+				// offset (a rewind is a legal commit)
+				if o -= op.A; o < 0 {
+					o = 0
 				}
 				unc[k.t][k.p] = kgo.EpochOffset{Epoch: -1, Offset: o}
 				cc.offsets[k] = o
@@ -359,12 +381,7 @@ func (gs *groupState) pollLoop(m *gmember, script []plan.Op, pattern []plan.Op) 
 			if len(lastRecs) == 0 {
 				return
 			}
-			for _, r := range lastRecs {
-				k := tpKey{r.Topic, r.Partition}
-				if r.Offset+1 > cc.offsets[k] {
-					cc.offsets[k] = r.Offset + 1
-				}
-			}
+			ctx = capture(ctx)
 			gs.mu.Lock()
 			gs.commits[m.name] = append(gs.commits[m.name], cc)
 			cc.invokeSeq = s.Seq()
@@ -374,9 +391,7 @@ func (gs *groupState) pollLoop(m *gmember, script []plan.Op, pattern []plan.Op) 
 			cc.err, cc.done, cc.doneSeq = err, true, s.Seq()
 			gs.mu.Unlock()
 		case "commit_uncommitted":
-			for k, o := range pos {
-				cc.offsets[k] = o
-			}
+			ctx = capture(ctx)
 			gs.mu.Lock()
 			gs.commits[m.name] = append(gs.commits[m.name], cc)
 			cc.invokeSeq = s.Seq()
@@ -387,6 +402,7 @@ func (gs *groupState) pollLoop(m *gmember, script []plan.Op, pattern []plan.Op) 
 			gs.mu.Unlock()
 		}
 		s.Probe(op.Kind)
+		s.Logf("COMMIT %s #%d %s rewind=%d ctx=%dms t0/0=%d done=%v", m.name, cc.idx, cc.kind, op.A, op.D, cc.offsets[tpKey{"t0", 0}], cc.done)
 	}
 	for _, op := range script {
 		select {
